@@ -138,7 +138,7 @@ def _alloc_case(rng, sz):
                 n = rng.pick([0, 1, 2, 3, 7, 8, 9, 63, 64, 65, 255, 256, 1000, 4096, 65536 // sz + 1])
             else:
                 n = rng.randrange(ms - 3, min(W, ms + 4))
-            c.append("%s %d %d" % ("alh" if rng.chance(0.15) else "al", k, n))
+            c.append("%s %d %d" % (rng.pick(["alh", "alnh", "alnh"]) if rng.chance(0.3) else "al", k, n))
             used.add(k)
         elif r < 0.85:
             k = rng.pick(sorted(used)) if rng.chance(0.9) else k
@@ -219,7 +219,7 @@ _REALLOC = ("push", "resize", "resize0", "reserve", "shrink", "assign", "copy", 
 
 def nontrivial(case):
     ops = [l.split()[0] for l in case]
-    if sum(1 for o in ops if o in ("am", "al", "alh")) >= 3:
+    if sum(1 for o in ops if o in ("am", "al", "alh", "alnh")) >= 3:
         return True
     if "svcheck" in ops:
         return True
